@@ -52,7 +52,7 @@ var props = map[string]propConf{
 	"C08": {Engine: "E1", QuickBudget: 12, ThorBudget: 600},
 	"C10": {Engine: "E1+E2", QuickBudget: 15, ThorBudget: 600},
 	"C11": {Engine: "E1", QuickBudget: 12, ThorBudget: 600},
-	"C20": {Engine: "E3", Bubble: true, QuickBudget: 15, ThorBudget: 600},
+	"C20": {Engine: "E1", QuickBudget: 12, ThorBudget: 600},
 	"C18": {Engine: "E3", Bubble: true, QuickBudget: 15, ThorBudget: 600},
 	"C17": {Engine: "E4", QuickBudget: 15, ThorBudget: 600},
 	"C16": {Engine: "E1", QuickBudget: 12, ThorBudget: 600},
@@ -682,7 +682,21 @@ func cmdDeterminism(args []string) int {
 		}
 		if fp != first {
 			okAll = false
-			fmt.Printf("DIVERGENCE at GOMAXPROCS=%d rep=%d\n", k.procs, k.rep)
+			i := 0
+			for i < len(fp) && i < len(first) && fp[i] == first[i] {
+				i++
+			}
+			lo := i - 60
+			if lo < 0 {
+				lo = 0
+			}
+			hi := func(s string) int {
+				if i+80 < len(s) {
+					return i + 80
+				}
+				return len(s)
+			}
+			fmt.Printf("DIVERGENCE at GOMAXPROCS=%d rep=%d\n  ref: ...%s\n  got: ...%s\n", k.procs, k.rep, first[lo:hi(first)], fp[lo:hi(fp)])
 		}
 	}
 	if !okAll {
